@@ -316,6 +316,8 @@ class _Names:
             both = [a for a in bound if a in advanced]
             if len(both) == 1:
                 return both[0]
+            if len(set(advanced)) == 1:
+                return advanced[0]          # bound through a helper the constructor calls
             if len(bound) == 1:
                 return bound[0]
             raise AnalysisError("anchor vanished: IdGenerator.__init__ does not initialise a counter")
